@@ -132,8 +132,10 @@ def handleBinary (s : DState) (toks : List String) : Option Out :=
   | ["hdrbyte", hex] =>
     match parseBytes hex with
     | some bs =>
+      -- the supported version bytes 2 and 3 in front of a foreign body are garbage the property
+      -- says nothing about: not compared
       some (s, ["hdrbyte " ++ rle ((List.range 256).map fun v =>
-        classify ([0x48, 0x50, 0x4f, UInt8.ofNat v] ++ bs))])
+        if v = 2 ∨ v = 3 then '-' else classify ([0x48, 0x50, 0x4f, UInt8.ofNat v] ++ bs))])
     | none => none
   | ["rtcheck", a, b] =>
     match a.toNat?.bind s.slot, b.toNat?.bind s.slot with
